@@ -67,6 +67,17 @@ int n(int k) { return k; }
             if n == 0:
                 src = src.replace('const byte[] gc = [];', 'const byte[] gc = [];').replace('byte[] gm = [];', 'byte[] gm = [];')
             jobs.append(('bytes_w%d_n%d' % (w, n), src, ['a\x01z'], w, 200, False, 400000))
+    # lengths around the byte boundary of the length word (127..257) and well beyond it: literal, global string, global const
+    # array, command-line string - the length is a word, every byte of it counts
+    for w in ((2, 4) if ctx.quick else (2, 3, 4, 8)):
+        for n in ((127, 128, 255, 256, 257, 300) if ctx.quick else (127, 128, 129, 200, 255, 256, 257, 300, 511, 512, 1000)):
+            data = [ctx.rng.choice(range(33, 127)) if i % 7 else ctx.rng.randrange(256) for i in range(n)]
+            lit = ''.join('\\x%02x' % b for b in data)
+            elems = ', '.join(str(b) for b in data)
+            src = ('const byte[] gc = [%s];\nstring gs = "%s";\nempty @is_you(string arg) {\n    write("%s"); write(\'|\'); write(gs); write(\'|\'); '
+                   'write(gc); write(\'|\'); write(arg); write(\'|\');\n    write(gs.length); write(\' \'); write(gc.length); write(\' \'); write(arg.length); '
+                   'writeln(gs); writeln(arg is byte[]);\n}\n' % (elems, lit, lit))
+            jobs.append(('long_w%d_n%d' % (w, n), src, [''.join(chr(33 + (i * 7) % 90) for i in range(n))], w, 200, False, 600000))
     tally, bad, res = suites.differential(ctx, jobs, None, label='write-family', must_compile=True)
     # python's own decimal notation as a second oracle for the 16-bit sweep
     mism = 0
